@@ -219,3 +219,146 @@ Proof.
   destruct n; [|discriminate]. injection H as <-. cbn [token_doc].
   pose proof (parse_root_tok _ ts e Hne Ep) as Hr. rewrite forallb_forall in *. intros x Hx. apply (rchild_of ind x Hi (Hr x Hx)).
 Qed.
+
+(* ---------------------------------------------------------------- the content of a reformatted token paragraph / document *)
+From V.proofs Require Import Deb822EditP.
+Definition epair (e : tree) : list (str * str) := match entry_key e with Some k => [(k, entry_value e)] | None => [] end.
+
+Lemma pitems_loose l : forallb loose l = true -> pitems l = [].
+Proof.
+  induction l as [|c r IH]; [reflexivity|]. cbn [forallb]. intros H. apply andb_true_iff in H. destruct H as [H1 H2].
+  rewrite pitems_cons_other; [apply IH, H2|]. destruct c as [k s|]; [reflexivity|discriminate].
+Qed.
+
+Lemma pitems_p_ungroup ind G tr : (forall g, In g G -> forallb loose (fst g) = true /\ entry_ok ind (snd g) = true) -> forallb loose tr = true ->
+  pitems (p_ungroup G tr) = flat_map (fun g => epair (snd g)) G.
+Proof.
+  intros HG Htr. unfold p_ungroup. rewrite pitems_app, (pitems_loose tr Htr), app_nil_r.
+  induction G as [|g r IH]; [reflexivity|]. cbn [map concat flat_map]. rewrite !pitems_app, IH by (intros y Hy; apply HG; right; exact Hy).
+  destruct (HG g (or_introl eq_refl)) as [H1 H2]. rewrite (pitems_loose _ H1). cbn [app]. f_equal.
+  destruct (entry_ok_shape ind (snd g) H2) as (cs & E & _ & _). rewrite E. rewrite pitems_cons_entry by reflexivity. apply app_nil_r.
+Qed.
+
+Lemma epair_e_out ind iel mll e : entry_ok ind e = true -> epair (e_out ind iel mll e) = epair e.
+Proof.
+  intros H. unfold epair. rewrite (e_out_key ind iel mll e H). destruct (entry_ok_shape ind e H) as (cs & -> & Ht & _).
+  unfold e_out, entry_value. cbn [children]. pose proof (entry_out_texts ind iel mll cs VALUE Ht eq_refl) as E. unfold ktx in E.
+  unfold entry_out in *. cbn [children] in E. rewrite E. reflexivity.
+Qed.
+
+Lemma p_groups_ungroup_id cs : forall cur, p_ungroup (fst (p_groups cs cur)) (snd (p_groups cs cur)) = cur ++ cs.
+Proof.
+  induction cs as [|c r IH]; intros cur; [cbn [p_groups fst snd p_ungroup map concat app]; rewrite app_nil_r; reflexivity|].
+  cbn [p_groups]. destruct (loose c).
+  - rewrite IH, <- app_assoc. reflexivity.
+  - specialize (IH []). destruct (p_groups r []) as [gs tr]. cbn [fst snd] in *. unfold p_ungroup in *. cbn [map concat fst snd].
+    rewrite <- !app_assoc. cbn [app] in *. rewrite IH. reflexivity.
+Qed.
+
+(* the fields of the reformatted paragraph: the fields it had (names and values), in the stable
+   order of the sort (the order they had when no sort is requested) *)
+Theorem p_out_items ind iel mll esort cs : forallb (pchild_ok ind) cs = true ->
+  items (Node PARAGRAPH cs) = flat_map (fun g => epair (snd g)) (fst (p_groups cs [])) /\
+  items (Node PARAGRAPH (p_out ind iel mll esort cs)) =
+    flat_map (fun g => epair (snd g)) (sort_opt (option_map on_snd esort) (fst (p_groups cs []))).
+Proof.
+  intros H. destruct (p_groups_props ind cs [] H eq_refl) as [Hg Htr]. pose proof (p_groups_ungroup_id cs []) as Eid. unfold p_out.
+  destruct (p_groups cs []) as [gs tr]. cbn [fst snd app] in *. split.
+  - change (items (Node PARAGRAPH cs)) with (pitems cs). rewrite <- Eid.
+    apply (pitems_p_ungroup ind gs tr); [intros g Hin; destruct (Hg g Hin) as (A & B & _); split; assumption|exact Htr].
+  - change (items (Node PARAGRAPH ?x)) with (pitems x). set (L := sort_opt (option_map on_snd esort) gs).
+    assert (HL : forall g, In g L -> forallb loose (fst g) = true /\ entry_ok ind (snd g) = true)
+      by (intros g Hin; destruct (Hg g (sort_opt_In _ _ _ Hin)) as (A & B & _); split; assumption).
+    rewrite (pitems_p_ungroup ind _ tr); [|intros g' Hg'; apply in_map_iff in Hg'; destruct Hg' as (g & <- & Hin); destruct (HL g Hin) as [A B];
+                                           cbn [fst snd]; split; [exact A|apply (e_out_idem ind iel mll (snd g) B)]|exact Htr].
+    rewrite flat_map_concat_map, map_map, <- flat_map_concat_map. cbn [snd].
+    rewrite !flat_map_concat_map. f_equal. apply map_ext_in. intros g Hin. apply (epair_e_out ind iel mll (snd g) (proj2 (HL g Hin))).
+Qed.
+
+Lemma items_ensure_nl_para xs : items (ensure_nl (Node PARAGRAPH xs)) = items (Node PARAGRAPH xs).
+Proof. rewrite ensure_nl_node. apply pitems_ensure_nl_list. Qed.
+
+Definition is_pnode (c : tree) : bool := is_node c && is_kind PARAGRAPH c.
+Lemma doc_items_unfold rs : doc_items (Node ROOT rs) = map items (filter is_pnode rs).
+Proof. reflexivity. Qed.
+
+Lemma doc_items_ensure_nl rs : (forall c, In c rs -> is_node c = true) -> doc_items (Node ROOT (ensure_nl_list rs)) = doc_items (Node ROOT rs).
+Proof.
+  intros Hn. rewrite Deb822EditP.ensure_nl_list_spec. rewrite <- (rev_involutive rs) at 2. destruct (rev rs) as [|x r] eqn:Er; [reflexivity|].
+  cbn [rev]. rewrite !doc_items_unfold, !filter_app, !map_app. f_equal.
+  assert (Hx : is_node x = true) by (apply Hn; apply in_rev; rewrite Er; left; reflexivity).
+  destruct x as [|k cs]; [discriminate|]. cbn [filter]. destruct k; try reflexivity.
+  change (is_pnode (ensure_nl (Node PARAGRAPH cs))) with true. change (is_pnode (Node PARAGRAPH cs)) with true. cbn [map]. rewrite items_ensure_nl_para. reflexivity.
+Qed.
+
+Lemma cline_not_pnode c : cline c = true -> is_pnode c = false /\ is_node c = true.
+Proof. destruct c as [|k ts]; [discriminate|]. destruct k; try discriminate. intros _. split; reflexivity. Qed.
+
+Lemma filter_pnode_clines l : forallb cline l = true -> filter is_pnode l = [].
+Proof.
+  induction l as [|c r IH]; [reflexivity|]. cbn [forallb filter]. intros H. apply andb_true_iff in H. destruct H as [H1 H2].
+  rewrite (proj1 (cline_not_pnode c H1)). apply IH, H2.
+Qed.
+
+Lemma doc_items_emit ind G tr : forall first, (forall g, In g G -> dgroup_ok ind g) -> forallb cline tr = true ->
+  doc_items (Node ROOT (d_emit first G ++ tr)) = map (fun g => items (snd g)) G.
+Proof.
+  intros first HG Htr. rewrite doc_items_unfold, filter_app, (filter_pnode_clines tr Htr), app_nil_r. revert first.
+  induction G as [|g r IH]; intros first; [reflexivity|]. destruct (HG g (or_introl eq_refl)) as [P1 P2].
+  cbn [d_emit]. rewrite !filter_app, (filter_pnode_clines _ P1).
+  replace (filter is_pnode (if first then [] else [blank_line])) with (@nil tree) by (destruct first; reflexivity).
+  cbn [app filter]. destruct (snd g) as [|k ps] eqn:Eg; [discriminate|]. destruct k; try discriminate.
+  change (is_pnode (Node PARAGRAPH ps)) with true. cbn [map]. rewrite Eg. f_equal. apply (IH (fun y Hy => HG y (or_intror Hy)) false).
+Qed.
+
+(* the paragraphs of the reformatted document: those it had, in the stable order of the sort, each
+   with the fields p_out_items says *)
+Theorem d_out_items ind iel mll psort esort rs : forallb (rchild_ok ind) rs = true -> esort_ok ind iel mll esort ->
+  doc_items (Node ROOT rs) = map (fun g => items (snd g)) (fst (d_groups rs [])) /\
+  doc_items (d_out ind iel mll psort esort rs) =
+    map (fun g => items (Node PARAGRAPH (p_out ind iel mll esort (children (snd g)))))
+        (sort_opt (option_map on_snd psort) (fst (d_groups rs []))).
+Proof.
+  intros H Hes. destruct (d_groups_props ind rs [] H eq_refl) as [Hg Htr]. unfold d_out.
+  assert (Hid : forall rs0 cur, forallb (rchild_ok ind) rs0 = true -> forallb cline cur = true ->
+            doc_items (Node ROOT rs0) = map (fun g => items (snd g)) (fst (d_groups rs0 cur))).
+  { clear. induction rs0 as [|c r IH]; intros cur Hr Hc; [reflexivity|]. cbn [forallb] in Hr. apply andb_true_iff in Hr. destruct Hr as [H1 H2].
+    rewrite doc_items_unfold. cbn [d_groups filter]. destruct c as [|k cs]; [discriminate|].
+    destruct k; try discriminate; cbn [is_para_node].
+    - change (is_pnode (Node PARAGRAPH cs)) with true. cbv iota. specialize (IH [] H2 eq_refl). rewrite doc_items_unfold in IH.
+      destruct (d_groups r []) as [gs tr]. cbn [fst snd map] in *. rewrite IH. reflexivity.
+    - change (is_pnode (Node EMPTY_LINE cs)) with false. cbv iota. rewrite <- doc_items_unfold.
+      apply IH; [exact H2|]. destruct (comment_line (Node EMPTY_LINE cs)) eqn:Ec; [|exact Hc].
+      rewrite forallb_app, Hc. cbn [forallb cline]. cbn [rchild_ok] in H1. rewrite H1, Ec. reflexivity. }
+  split; [apply Hid; [exact H|reflexivity]|].
+  destruct (d_groups rs []) as [gs tr]. cbn [fst snd] in *.
+  set (L := sort_opt (option_map on_snd psort) gs).
+  assert (HL : forall g, In g L -> forallb cline (fst g) = true /\ para_ok ind (snd g) = true)
+    by (intros g Hin; apply Hg; apply (sort_opt_In _ _ _ Hin)).
+  set (G := map (fun g => (fst g, pp_out ind iel mll esort (snd g))) L).
+  assert (HG : forall g, In g G -> dgroup_ok ind g).
+  { intros g' Hg'. apply in_map_iff in Hg'. destruct Hg' as (g & <- & Hin). destruct (HL g Hin) as (H1 & H2). cbn [fst snd]. split; [exact H1|].
+    destruct (snd g) as [|k ps]; [discriminate|]. destruct k; try discriminate. cbn [para_ok] in H2.
+    destruct (pp_out_idem ind iel mll esort ps H2 Hes) as (A & _ & _). unfold pp_out in *. rewrite ensure_nl_node in *. exact A. }
+  rewrite ensure_nl_node, doc_items_ensure_nl.
+  - rewrite (doc_items_emit ind G tr true HG Htr). unfold G. rewrite map_map. apply map_ext. intros g. cbn [snd]. unfold pp_out. apply items_ensure_nl_para.
+  - intros c Hc. apply in_app_or in Hc. destruct Hc as [Hc|Hc].
+    + pose proof (rchild_ok_emit ind G true HG) as Hr. rewrite forallb_forall in Hr. specialize (Hr c Hc). destruct c; [discriminate|reflexivity].
+    + rewrite forallb_forall in Htr. apply (cline_not_pnode c (Htr c Hc)).
+Qed.
+
+(* ---------------------------------------------------------------- every error-free document *)
+Theorem error_free_ws s t ind iel mll psort esort : from_str s = Ok t -> ind_pos ind ->
+  esort_ok ind iel mll esort -> psort_ok ind iel mll psort esort ->
+  let R := d_out ind iel mll psort esort (children t) in
+  doc_ws fixed psort (Some (para_ws fixed ind iel mll esort None)) t = Ok R /\
+  doc_items t = map (fun g => items (snd g)) (fst (d_groups (children t) [])) /\
+  doc_items R = map (fun g => items (Node PARAGRAPH (p_out ind iel mll esort (children (snd g)))))
+                    (sort_opt (option_map on_snd psort) (fst (d_groups (children t) []))) /\
+  doc_ws fixed psort (Some (para_ws fixed ind iel mll esort None)) R = Ok R.
+Proof.
+  intros Hs Hi Hes Hps R. pose proof (error_free_is_token_doc s t ind Hs Hi) as Ht.
+  destruct (token_doc_ws ind iel mll psort esort t Ht Hes Hps) as (A & _ & C). fold R in A, C.
+  destruct t as [|k rs]; [discriminate|]. destruct k; try discriminate. cbn [token_doc children] in *.
+  destruct (d_out_items ind iel mll psort esort rs Ht Hes) as [D1 D2]. repeat split; assumption.
+Qed.
